@@ -334,6 +334,23 @@ def geometry_fields(f, P, path, depth=0, _seen=None):
     return out
 
 
+# derived geometry fields in terms of the independent ones (the formulas are decided by C09.4), so that
+# two computations agree when they use equivalent fields (e.g. rb_entries() instead of rb_index_shift)
+DERIVED = {
+    'l2_index_shift': {'cluster_shift'}, 'l2_index_mask': {'cluster_shift'}, 'in_cluster_offset_mask': {'cluster_shift'},
+    'l2_slice_index_shift': {'l2_slice_bits'}, 'l2_slice_entries': {'l2_slice_bits'},
+    'rb_index_shift': {'cluster_shift', 'refcount_order'}, 'rb_index_mask': {'cluster_shift', 'refcount_order'},
+    'rb_slice_index_shift': {'rb_slice_bits', 'refcount_order'},
+}
+
+
+def canon(fields):
+    out = set()
+    for x in fields:
+        out |= DERIVED.get(x, {x})
+    return out
+
+
 def key_rule(f, P, rep, rid):
     rep.rule(rid, 'the function mapping a top-table byte offset to the first child slice key reads the same index-shift '
                   'field as the forward top-table index function')
@@ -358,7 +375,7 @@ def key_rule(f, P, rep, rid):
                                 if e['k'] == 'field' and e['n'].endswith('_shift'):
                                     own.add(e['n'])
         fwd_fields = {x for x in geometry_fields(f, P, fw[0].path) if x.endswith('index_shift')}
-        ok = need <= own and need <= fwd_fields and not (own - need - {'cluster_shift'})
+        ok = canon(need) <= canon(own) and canon(need) <= canon(fwd_fields) and not (canon(own) - canon(need) - {'cluster_shift'})
         rep.ob(rid, '%s vs %s' % (inv_name, fwd.split('::')[-1]), ok, 'inverse uses %s, forward uses %s' % (sorted(own), sorted(fwd_fields)))
         if not ok:
             rep.violation(rid, '%s:%s' % (rid, inv_name), inv[0].where(0),
